@@ -44,6 +44,8 @@ def run(prog, res):
   _conversion(prog, res)
   _bounds_only(prog, res)
   _mirror_results(prog, res)
+  _squeeze_clips(prog, res)
+  res.floor('K3s', 2)
   affine_rules.check_pwl_bounds(prog, res)
   res.floor('L2', 16)
   fn = prog.function(PL + '.project_all_constraints')
@@ -349,6 +351,101 @@ def _bounds_only(prog, res):
                   bound, op.split('.')[-1], bound),
               'the %s clip of the keypoint outputs is not %s(sums, %s) under '
               '%s_constraints == BOUND' % (bound, op, bound, bound))
+
+
+def _squeeze_clips(prog, res):
+  """K3s: _squeeze_by_scaling (increasing case) moves the bias into the
+  bounds first - tf.maximum(bias, output_min) whenever output_min is
+  constrained, tf.minimum(bias, output_max) whenever output_max is - and only
+  then scales the heights into what is left.  The statements executed are
+  enumerated for the 3 x 3 constraint types of the two bounds; a clip that
+  sits in the elif / else of the other bound's test is skipped exactly when
+  both bounds are set (delta = output_max - bias becomes negative)."""
+  fn = prog.function(PL + '._squeeze_by_scaling')
+  res.analysed(fn)
+  TYPES = ('NONE', 'BOUND', 'CLAMPED')
+
+  def decide(t, env):
+    if isinstance(t, ast.BoolOp):
+      vs = [decide(v, env) for v in t.values]
+      if isinstance(t.op, ast.And):
+        return False if False in vs else (None if None in vs else True)
+      return True if True in vs else (None if None in vs else False)
+    if isinstance(t, ast.UnaryOp) and isinstance(t.op, ast.Not):
+      v = decide(t.operand, env)
+      return None if v is None else (not v)
+    if isinstance(t, ast.Compare) and len(t.ops) == 1:
+      l, r = dotted(t.left), dotted(t.comparators[0])
+      if l in env and r and r.split('.')[-1] in TYPES:
+        eq = env[l] == r.split('.')[-1]
+        if isinstance(t.ops[0], ast.Eq):
+          return eq
+        if isinstance(t.ops[0], ast.NotEq):
+          return not eq
+      if l == 'monotonicity':
+        c = const_value(t.comparators[0], None)
+        if isinstance(t.ops[0], ast.Eq):
+          return env['monotonicity'] == c
+        if isinstance(t.ops[0], ast.NotEq):
+          return env['monotonicity'] != c
+    return None
+
+  def run_block(stmts, env, out):
+    for st in stmts:
+      if isinstance(st, ast.If):
+        v = decide(st.test, env)
+        if v is None:
+          a = run_block(st.body, env, out)
+          b = run_block(st.orelse, env, out)
+          if a and b:
+            return True
+          continue
+        if run_block(st.body if v else st.orelse, env, out):
+          return True
+        continue
+      out.append(st)
+      if isinstance(st, (ast.Return, ast.Raise)):
+        return True
+    return False
+
+  def clips(stmts, op, bound):
+    for st in stmts:
+      for c in ast.walk(st):
+        if isinstance(c, ast.Call) and (prog.ext_name(fn.module, c.func) or
+                                        '') == op and len(c.args) == 2 and \
+            {dotted(c.args[0]), dotted(c.args[1])} == {'bias', bound}:
+          return True
+        if isinstance(c, ast.Call) and (prog.ext_name(
+            fn.module, c.func) or '').endswith('clip_by_value') and dotted(
+                c.args[0] if c.args else None) == 'bias':
+          kw = {k.arg: k.value for k in c.keywords}
+          lo = c.args[1] if len(c.args) > 1 else kw.get('clip_value_min')
+          hi = c.args[2] if len(c.args) > 2 else kw.get('clip_value_max')
+          if dotted(lo if op == 'tf.maximum' else hi) == bound:
+            return True
+    return False
+  for bound, op, key in (('output_min', 'tf.maximum', 'output_min_constraints'),
+                         ('output_max', 'tf.minimum', 'output_max_constraints')):
+    missing = None
+    for tmin in TYPES:
+      for tmax in TYPES:
+        env = {'output_min_constraints': tmin, 'output_max_constraints': tmax,
+               'monotonicity': 1}
+        if env[key] == 'NONE':
+          continue
+        out = []
+        run_block(fn.node.body, env, out)
+        if not clips(out, op, bound) and missing is None:
+          missing = (tmin, tmax)
+    res.check(missing is None, 'K3s', '%s|bias-%s' % (fn.qualname, bound),
+              fn.loc(),
+              'the bias is clipped against %s in every state where it is '
+              'constrained' % bound,
+              'with output_min_constraints=%s, output_max_constraints=%s the '
+              'bias is not clipped against %s (%s): the heights are scaled '
+              'into a range computed from an unclipped bias' % (
+                  (missing or ('', ''))[0], (missing or ('', ''))[1], bound,
+                  op))
 
 
 def _mirror_results(prog, res):
